@@ -2,11 +2,42 @@ package checks
 
 import (
 	"fmt"
+	"strings"
 
 	"verif/mc/fw"
 	"verif/mc/gen"
 	"verif/mc/ref"
 )
+
+// deepFieldPrograms: nested blocks to depth d; every subset of levels assigns the field f
+// (a distinct value per level) before opening the next level; the innermost level reads it,
+// and every level reads it again after its child closed. Exhaustive over assignment patterns.
+func deepFieldPrograms(maxDepth int, do func(string)) {
+	for d := 1; d <= maxDepth; d++ {
+		for mask := 0; mask < 1<<d; mask++ {
+			for _, late := range []bool{false, true} {
+				var sb strings.Builder
+				for lv := 0; lv < d; lv++ {
+					fmt.Fprintf(&sb, "def b%d { ", lv)
+					if mask&(1<<lv) != 0 && !late {
+						fmt.Fprintf(&sb, "f = %d; ", lv+1)
+					}
+				}
+				sb.WriteString("g = f; print f; ")
+				for lv := d - 1; lv >= 0; lv-- {
+					sb.WriteString("}; ")
+					if lv > 0 {
+						if mask&(1<<(lv-1)) != 0 && late {
+							fmt.Fprintf(&sb, "f = %d; ", lv)
+						}
+						sb.WriteString("print f; ")
+					}
+				}
+				do(sb.String())
+			}
+		}
+	}
+}
 
 // seqCheck registers a check whose space is "all statement sequences up to a length
 // over an alphabet", judged by the reference-model oracle.
@@ -104,6 +135,7 @@ func init() {
 		quickLen: 5, thorLen: 7, maxNest: 3, budgetQ: 100, budgetT: 1500,
 		mustSee: []string{"accepted-ok", "rejected:undefined", "rejected:redeclared", "accepted-rterr:unresolved", "accepted-rterr:types"},
 		extra: func(c *fw.Ctx, do func(string)) {
+			deepFieldPrograms(5, do)
 			// shadowing to depth 8 and name reuse between variables and fields
 			for d := 1; d <= 8; d++ {
 				src := "var x = 0; "
@@ -141,6 +173,7 @@ func init() {
 			"variables, TYPE/NAME/field reads, a field named like a child type, a runtime error; nesting <=3. The []Block returned by the real Interpret (order, Type, Name, Fields with dynamic types, children keyed type / type.name, no variables), " +
 			"the duplicate-child runtime error and the blocks returned alongside a runtime error are compared with the reference evaluator.",
 		sub: newRefSub("c03.seq"), alpha: a3,
+		extra:    func(c *fw.Ctx, do func(string)) { deepFieldPrograms(5, do) },
 		quickLen: 5, thorLen: 6, maxNest: 3, budgetQ: 100, budgetT: 1500,
 		mustSee:     []string{"accepted-ok", "accepted-rterr:dupchild", "accepted-rterr:divzero", "accepted-rterr:unresolved"},
 		assumptions: []string{"reading a closed child through its key and assigning a field under a closed child's key are left open by the documentation and excluded"},
@@ -162,6 +195,14 @@ func init() {
 		rule: "explicit enumeration of all toplevel statement sequences up to length L (quick 5, thorough 6; rejected prefixes are not extended) over a 22-symbol alphabet: three distinguishable block definitions of two types, bind with every selector (none, 1, first, last, all) x target (struct, slice), " +
 			"bind of another / of a missing type, the compile-error forms (:all->struct, :2, :foo, ->oops), a bind inside a block, a runtime error. Compared with a trivial reference: binding kind and exact blocks, runtime-error class, rejection, one warning per bind after the first, nil binding without bind.",
 		sub: newRefSub("c04.seq"), alpha: a4,
+		extra: func(c *fw.Ctx, do func(string)) {
+			// bind statements whose block-type constant has index >= 241 (2- and 3-byte operands)
+			for _, s := range gen.ScaledFamilies(false) {
+				if strings.HasPrefix(s.Name, "constpool-bind") {
+					do(s.Src)
+				}
+			}
+		},
 		quickLen: 5, thorLen: 6, maxNest: 1, budgetQ: 100, budgetT: 1500,
 		mustSee: []string{"accepted-ok", "accepted-rterr:bind-none", "accepted-rterr:bind-count", "rejected:all-needs-slice", "rejected:selector", "rejected:target"},
 	})
